@@ -11,9 +11,11 @@ func TestMain(m *testing.M) { vkit.Main(m) }
 func TestProp_Controlled(t *testing.T) { PartCtl.Run(t) }
 func TestProp_Stress(t *testing.T)     { PartStress.Run(t) }
 func TestRace_Stress(t *testing.T)     { PartStressRace.Run(t) }
+func TestEnum_KnownF21(t *testing.T)   { PartF21.Run(t) }
 
 func TestReplay(t *testing.T) {
 	PartCtl.Replay(t, 1)
 	PartStress.Replay(t, 50)
 	PartStressRace.Replay(t, 50)
+	PartF21.Replay(t, 1)
 }
